@@ -93,6 +93,7 @@ def _exec_crash(scn, crash_at):
             try:
                 r = CrawlRun(cs.site_desc(scn), cs.argv(scn, db, d), concurrency=scn['N'], db_path=db,
                              trace_file=tf, crash_at=crash_at, run_no=1, cwd=d)
+                r.max_requests = max(400, 3 * len(scn['urls']))
                 r.execute()
             except BaseException:
                 traceback.print_exc()
@@ -104,6 +105,7 @@ def _exec_crash(scn, crash_at):
         if not crashed:
             return dict(ev=ev1, rows=[], crashed=False, outcome='nocrash')
         r2 = CrawlRun(cs.site_desc(scn), cs.argv(scn, db, d), concurrency=scn['N'], db_path=db, run_no=2, cwd=d)
+        r2.max_requests = max(400, 3 * len(scn['urls']))
         # what the database holds after the kill (the last commit may not have had its event logged)
         n = len(scn['urls'])
         sync = {'e': 'dbsync', 'st': ['none'] * n, 'tr': [0] * n, 'lv': [0] * n}
@@ -223,6 +225,10 @@ def run(chk):
             if 'error' in base:
                 raise RuntimeError(base['error'])
             npoints = len(base['ev'])
+            if scn.get('crash_window') == 'startup':
+                # only the start-up phase is of interest: every event up to (and just after) the first request
+                first = next((i for i, e in enumerate(base['ev']) if e['e'] == 'req'), npoints - 1)
+                npoints = min(npoints, first + 3)
             outs = run_jobs([dict(mode='crash', scn=scn, crash_at=k) for k in range(1, npoints + 1)])
             n = 0
             for o in outs:
